@@ -437,7 +437,8 @@ def check_property(pid, tier, repo, scratch, seed):
             'backends': sorted(set(['z3 via Verus'] * bool(units) + [b for e in extra for b in e.get('backends', [])])),
             'solver_ms': sum((o.get('smt_ms') or 0) for o in obligations),
             'extraction': [{'unit': u['unit'], 'files': u['extract']['files'], 'transform_counts': u['extract']['transform_counts'],
-                            'non_ghost_annotation_lines_in_repo_fn_bodies': u.get('exec_annotation_lines')} for u in units],
+                            'non_ghost_annotation_lines_in_repo_fn_bodies': u.get('exec_annotation_lines'),
+                            'new_readonly_functions_left_out': u['extract'].get('new_readonly_fns_dropped', [])} for u in units],
             'vacuity_probes': vac,
             'bounded_components': [b for e in extra for b in e.get('bounded_components', [])],
             'exploration_cross_check': cross,
